@@ -51,6 +51,55 @@ var props = map[string]propCfg{
 		Assumptions: modelAssumptions,
 		MinNontriv:  50,
 	},
+	"C15": {
+		Quick:    tierCfg{Shards: 8, Checks: 400, Timeout: 3 * time.Minute},
+		Thorough: tierCfg{Shards: 16, Checks: 8000, Timeout: 20 * time.Minute},
+		Rule: "a fixed tree holding every shape the statement names x every target x every argument spelling x 3 working directories, alone, beside the root and repeated (complete table), " +
+			"then generated trees (<= 8 directories of depth <= 4 named normally / vendor / testdata / .x / _x / like a file 'x.go' / near misses such as vendor2; <= 12 files *.go, *_test.go, .h.go, _u.go, '.go', x.go.bak, x.txt, a.GO; " +
+			"<= 3 symlinks to files, directories, ancestors (cycle), themselves, nothing) with 1-5 arguments (relative, ./, absolute, trailing /, /..., bare ..., glued 'dir...', unclean a/./b a//, dir/../dir; " +
+			"explicit files inside excluded directories, explicit excluded directories, explicit non-.go files and symlinks, repeats in the same or another spelling) and a working directory that is the root or a subdirectory. " +
+			"Every file holds one cnt(0) and the patch is -cnt(x)/+cnt(x + 1), so the number of applications is read off the bytes; the oracle is a reference walk over the tree model (must / either / must-not per file), " +
+			"all other entries must be identical in type, mode, size, mtime, inode and sha256, and with -v the patched/skipped lines must be exactly the reference set in ascending absolute-path order. " +
+			"Non-trivial = the tree has at least one .go file below an excluded directory and two arguments overlap or repeat; distinct by sha256(tree, cwd, args, -v).",
+		Assumptions: []string{
+			"'a fixed path order' is taken to be ascending byte order of the absolute paths, as the anchors say (sorting in findFiles)",
+			"a named directory whose own path (below the tree root) has an excluded component (explicit sub/vendor, sub/vendor/pkg, '.' inside vendor) is left open by the statement: the files below it that are not behind a further excluded directory may be processed once or not at all",
+			"not generated because the statement does not decide them: arguments that do not exist, that pass through a symlinked directory, 'link/' or 'file.go/' spellings, hard links, a tree root or harness directory with an excluded-looking base name",
+			"a crash or time-out of the CLI is counted as a foreign (C08) discrepancy and the case is not judged",
+		},
+		MinNontriv: 100,
+	},
+	"C18": {
+		Quick:    tierCfg{Shards: 8, Checks: 200, Timeout: 3 * time.Minute},
+		Thorough: tierCfg{Shards: 16, Checks: 2500, Timeout: 20 * time.Minute},
+		Rule: "gen.go = header shape x marker x comment style x placement, always with a site (cnt(0)) of a described change; run through the CLI with --skip-generated on/off in the modes in-place, -d, --print-only (with and without -v, alone or between two marker-free sibling files, directory or explicit file arguments). " +
+			"Part 1 enumerates the table (43 shapes x 32 markers x 3 styles: well-formed '// Code generated <text> DO NOT EDIT.', 4 well-formed and 17 near-miss spellings, 4 @generated forms and 5 near-misses, both on one line, an ordinary remark; 4067 entries; detached header / package doc / indented / after another comment / same line as package / after the clause / declaration doc / function body / end of file; with licence, //go:build and package-doc blocks around it): quick = every entry in place with the flag, plus one other mode with the flag and one mode without it for every entry that is not must-process and for half of the others; thorough = full cross product (24 configurations per entry). " +
+			"Part 2 draws random compositions (0-5 header blocks, several markers, drawn <text>, one-character edits of a well-formed marker, @generated in context). " +
+			"Oracle: three-valued reference predicate computed from the file bytes by a hand-written lexer (README wording + property statement): must-skip -> gen.go bytes/mtime/inode identical, nothing about it on stdout/stderr, exit 0, siblings exactly as in a run without the flag where gen.go is absent; must-process -> exit/stdout/stderr/files identical to the run without the flag; either -> one of the two, nothing in between; flag off -> identical (modulo the letters of the marker line) to the same file with the marker replaced by an innocuous comment. " +
+			"Non-trivial = the file carries at least one marker or near-miss (anything but an ordinary remark); distinct by sha256(file, configuration).",
+		Assumptions: []string{
+			"'package doc comment' = the comment group ending on the line directly above the package keyword; '@generated' counts as must-skip only as a word of its own",
+			"well-formed text in a /* */ comment, indented or after other text on its line, and @generated outside the package doc are not judged (either outcome is accepted, but nothing in between)",
+			"files are processed independently: the expected output for the siblings of a skipped file is the output of a run on the tree without that file",
+		},
+		MinNontriv: 1000,
+	},
+	"C19": {
+		Quick:    tierCfg{Shards: 8, Checks: 3000, Timeout: 3 * time.Minute},
+		Thorough: tierCfg{Shards: 16, Checks: 30000, Timeout: 20 * time.Minute, Env: []string{"VERIF_C19_CLI_EVERY=12", "VERIF_C19_REJECT_EVERY=12"}},
+		Rule: "generated patches of 1-4 changes (named/unnamed headers, metavariable declarations in every accepted layout, '#' and blank lines wherever they are accepted) " +
+			"with exactly one header or metavariable-section fault injected at a drawn change/line/column; patch.Parse must fail with a diagnostic 'name:line:col:' for the byte position of the " +
+			"offending token known to the generator (a sample also through the CLI: exit != 0, stderr has path:line:col, directory tree unchanged); plus rejected patches of other kinds " +
+			"(body syntax errors, truncations, token mutations of repository patches) through the CLI, judged only for 'stderr names the patch path, nothing rewritten'. " +
+			"Non-trivial = a judged header/metavariable fault on line > 1 with at least one comment/blank line or a whole change before it; distinct by sha256(name, patch, position, route).",
+		Assumptions: []string{
+			"the fault-free twin of every generated patch is parsed first; a case whose twin is rejected is not judged (status:base-rejected in the class histogram, expected 0)",
+			"faults whose offending token is the end of the metavariable section (e.g. 'var x,' directly before '@@') are not generated: there is no token in the file to point at",
+			"for a non-header line with leading white space where a header is expected, column 1 and the column of the first non-blank byte are both accepted",
+			"crashes and hangs are property C08's business and are recorded as status:foreign, not judged here",
+		},
+		MinNontriv: 500,
+	},
 }
 
 var modelAssumptions = []string{
